@@ -41,6 +41,7 @@ type histOp struct {
 }
 
 var c12Roots = []string{"/a", "/b", "/a/b", "/", "/c/{v}"}
+var c12Plain = []string{"/static/", "/h"}
 var c12Subs = []string{"/x", "/{id}", "/x/{id}", "/y", "", "/{id}/z"}
 
 func genC12(x *Ctx) *c12Scen {
@@ -94,6 +95,7 @@ func genC12(x *Ctx) *c12Scen {
 			sc.Admins = append(sc.Admins, ops)
 			continue
 		}
+		handled := map[int]bool{}
 		member := map[int]bool{}
 		for _, m := range sc.Members {
 			member[m] = true
@@ -107,8 +109,18 @@ func genC12(x *Ctx) *c12Scen {
 		tp.Repeat(1, maxOps, 650, func(int) {
 			sid := owned[a][tp.G(len(owned[a]))]
 			sp := sc.Svcs[sid]
-			switch tp.G(4) {
-			case 0, 1: // toggle membership
+			switch tp.G(9) {
+			case 8: // register a plain handler (Handle shares the container lock and the mux with Add/Remove)
+				if a == 0 && len(handled) < len(c12Plain) {
+					pid := len(handled)
+					handled[pid] = true
+					kind := "handle"
+					if pid%2 == 1 {
+						kind = "handlef"
+					}
+					ops = append(ops, AdminOp{Kind: kind, Plain: pid})
+				}
+			case 0, 1, 4, 5: // toggle membership
 				if member[sid] {
 					ops = append(ops, AdminOp{Kind: "remove", Svc: sid})
 					member[sid] = false
@@ -116,7 +128,7 @@ func genC12(x *Ctx) *c12Scen {
 					ops = append(ops, AdminOp{Kind: "add", Svc: sid})
 					member[sid] = true
 				}
-			case 2, 3: // toggle a route
+			case 2, 3, 6, 7: // toggle a route
 				r := sp.Routes[tp.G(len(sp.Routes))]
 				if present[r.ID] {
 					ops = append(ops, AdminOp{Kind: "unroute", Svc: sid, Route: r.ID})
@@ -146,6 +158,9 @@ func genC12(x *Ctx) *c12Scen {
 			if tp.Chance(80) {
 				p.Path = "/nowhere/at/all"
 			}
+			if tp.Chance(120) {
+				p.Path = []string{"/static/f", "/h"}[tp.G(2)]
+			}
 			ps = append(ps, p)
 		})
 		sc.Clients = append(sc.Clients, ps)
@@ -161,6 +176,9 @@ func runC12(x *Ctx) {
 	s.Preempt = sc.Preempt
 
 	w := &World{Svcs: sc.Svcs, Router: sc.Router, Reentrant: sc.Reentrant}
+	for i, pat := range c12Plain {
+		w.Plains = append(w.Plains, PlainSpec{ID: i, Pattern: pat, WithFilter: i%2 == 1})
+	}
 	w.index()
 	var done sim.Flags
 	if sc.Rendezvous {
